@@ -87,7 +87,8 @@ def run(ctx):
         got = [r for r in hists if r["variant"] == variant]
         if dump and not got:
             ctx.machinery("TLC produced no histories")
-        ctx.note(f"{len(got)} maximal histories of alternative {variant} replayed")
+        if dump:
+            ctx.note(f"MaxOpsIns={ops} MaxGens={gens}: {len(got)} maximal histories of alternative {variant} to replay")
         mine += got
         del hists
     ctx.cov["exhaustive"] = True
